@@ -36,7 +36,7 @@ func lookupFlow[T any](urlTree *URLTree[T], url string) lookupFlowNodeResult[T] 
 		}
 
 		parametricChild := currentNode.ParametricChild.Child
-		if parametricChild != nil &&
+		if parametricChild != nil && part.Value != "" &&
 			parametricChild.IsPartOfHost == part.IsPartOfHost {
 			currentNode = parametricChild
 			continue
